@@ -12,6 +12,7 @@ use serde_json::{json, Value};
 
 pub struct Sys {
     pub inert: Vec<String>,
+    pub cont_everywhere: bool,
 }
 
 fn payloads(maxlen: usize, osc: bool) -> Vec<String> {
@@ -178,7 +179,34 @@ fn parser_inert_inner(s: &str) -> Result<(), String> {
     if p.state != State::Ground {
         return Err(format!("parser ends in {:?}", p.state));
     }
+    // "back in ground state": what follows is understood exactly as by a parser that
+    // never saw the inert input - 7- and 8-bit forms of every sequence kind
+    let got: Vec<String> = CONTINUATION.chars().map(|ch| format!("{:?}", p.feed(ch))).collect();
+    let want = fresh_continuation();
+    if &got != want {
+        let i = got.iter().zip(want.iter()).position(|(a, b)| a != b).unwrap_or(0);
+        return Err(format!(
+            "afterwards the parser differs from a fresh one: character {} of the continuation {:?} gives {} instead of {}",
+            i,
+            CONTINUATION.chars().nth(i),
+            got[i],
+            want[i]
+        ));
+    }
     Ok(())
+}
+
+/// fed after every inert input: text, every C0 that is executed, 7- and 8-bit CSI / OSC / DCS /
+/// SOS / APC with both terminators, ESC sequences, charset designations, both save / restore
+/// spellings, modes, SGR forms, DECSTR, a non-ASCII and a C1 control
+pub const CONTINUATION: &str = "a\n\r\x08\t\x0e\x0f\u{9b}5;6Hb\x1b[1;2mc\u{9d}0;t\u{9c}d\x1b]0;t\x07e\u{90}q1\u{9c}f\x1bPq1\x1b\\g\u{98}s\u{9c}h\u{9f}s\x1b\\i\x1bM\u{84}\u{85}\u{88}\u{8d}\x1b[?25l\x1b[?6;7h\u{9b}?1049hj\x1b(0q\x1b)0\x1b(Bé\x1b[s\x1b[u\x1b7\x1b8\x1b[!p\x1b[4h\x1b[20l\x1b[38:2:1:2:3;48;5;9mk\x1b[2;3r\x1b[3b\x1b#8\x1b[8;9;10t\x1b[5W\x1b[g\u{9b}?1049l\x1bHl\x1bcm";
+
+fn fresh_continuation() -> &'static Vec<String> {
+    static FRESH: std::sync::OnceLock<Vec<String>> = std::sync::OnceLock::new();
+    FRESH.get_or_init(|| {
+        let mut p = Parser::new();
+        CONTINUATION.chars().map(|ch| format!("{:?}", p.feed(ch))).collect()
+    })
 }
 
 fn terminal_debug(vt: &Vt) -> String {
@@ -190,7 +218,7 @@ fn terminal_debug(vt: &Vt) -> String {
 }
 
 impl Sys {
-    fn judge(&self, inert: &str, rebuild: &dyn Fn() -> Vt, out: &mut Out) {
+    fn judge(&self, inert: &str, rebuild: &dyn Fn() -> Vt, out: &mut Out, with_continuation: bool) {
         out.count("inert_evaluations");
         let mut s = rebuild();
         let _ = s.feed_str(""); // flush change flags and pending trim
@@ -223,6 +251,19 @@ impl Sys {
         let _ = r.feed_str("Z");
         if obs(&s) != obs(&r) {
             out.violate("C20", "not-consumed", format!("{} then Z: {:?} vs Z alone: {:?}", esc(inert), obs(&s).rows, obs(&r).rows));
+            return;
+        }
+        // ... and so is everything else that follows: 7- and 8-bit forms of every sequence kind
+        // (cut before the final RIS of the continuation, which would hide what came before)
+        let cont = if with_continuation { &CONTINUATION[..CONTINUATION.len() - 3] } else { "" };
+        let _ = s.feed_str(cont);
+        let _ = r.feed_str(cont);
+        if with_continuation && (obs(&s) != obs(&r) || s.dump() != r.dump()) {
+            out.violate(
+                "C20",
+                "later-input-understood-differently",
+                format!("{} then the continuation: {:?} / {} vs the continuation alone: {:?} / {}", esc(inert), obs(&s).rows, esc(&s.dump()), obs(&r).rows, esc(&r.dump())),
+            );
             return;
         }
         // hidden state: identical internal terminal state => nothing to probe;
@@ -264,11 +305,14 @@ impl System for Sys {
     fn key(&self, vt: &Vt) -> u128 {
         fingerprint(vt)
     }
-    fn on_state(&self, _cfg: &Cfg, _h: &[&Op], _vt: &mut Vt, rebuild: &dyn Fn() -> Vt, out: &mut Out) {
+    fn on_state(&self, _cfg: &Cfg, h: &[&Op], _vt: &mut Vt, rebuild: &dyn Fn() -> Vt, out: &mut Out) {
         out.count("seed_states");
+        // the long continuation from the seeds of depth <= 1 (quick) / every seed (thorough):
+        // what an inert input does to later input does not depend on what is on the screen
+        let with_cont = self.cont_everywhere || h.len() <= 1;
         for i in &self.inert {
             let before = out.violations.len();
-            self.judge(i, rebuild, out);
+            self.judge(i, rebuild, out, with_cont);
             if out.violations.len() > before {
                 return;
             }
@@ -302,6 +346,7 @@ macro_rules! parts {
 fn make(tier: Tier) -> Sys {
     Sys {
         inert: inert_inputs(tier.pick(1, 2)),
+        cont_everywhere: tier == Tier::Thorough,
     }
 }
 
@@ -432,7 +477,7 @@ fn shape_sweep(ctx: &Ctx, rep: &mut Report, sys: &Sys) {
                     vt
                 };
                 let mut out = Out::default();
-                match crate::engine::guarded(|| sys.judge(s, &rebuild, &mut out)) {
+                match crate::engine::guarded(|| sys.judge(s, &rebuild, &mut out, true)) {
                     Ok(()) => {
                         if let Some(v) = out.violations.first() {
                             return Some((si, s.clone(), format!("{}: {}", v.oracle, v.detail)));
@@ -510,7 +555,7 @@ pub fn replay(ctx: &Ctx, v: &Value) -> bool {
             vt
         };
         let mut out = Out::default();
-        let r = crate::engine::guarded(|| sys.judge(&input, &rebuild, &mut out));
+        let r = crate::engine::guarded(|| sys.judge(&input, &rebuild, &mut out, true));
         for v in &out.violations {
             println!("{}: {}", v.oracle, v.detail);
         }
